@@ -10,7 +10,12 @@ C19_overwrite_*: emptied first, every image is an image of the session on an emp
 paths holding longer / shorter / same-size files of the same or another version, complete sessions and sessions whose header cannot be written
 completely; (2) two-level histories (Proofs/HistoryProofs.v): append sessions on the images interrupted sessions left, interrupted in turn;
 (3) faults raising every errno class / BlockingIOError / non-OSError exceptions, followed by with-exit, close only, or continued use (nothing
-stored); the library itself must issue no data write after a torn one."""
+stored); the library itself must issue no data write after a torn one.
+Round 6: RICH sessions (lasio.rs_session) of writers and appenders - chunks selected in every way from every record class, the source's PointFormat object changed in
+place between chunks, other files read / written meanwhile, the writer's / appender's OWN header edited between chunks (a VLR of a whole number of records appended, VLRs
+removed / grown, extra bytes, an extra dimension), every way of ending (close twice, close inside the with-block, close then with, chunks after close; closefd False /
+True) - with every low-level write and truncation recorded: the image after every operation, torn inside every write (every byte of the writes that touch the header
+size / offset to the points / counts), and the final file are read back: an exception or a prefix of what the session accepted."""
 import io
 import os
 import signal
@@ -33,7 +38,11 @@ ASSUMPTIONS = ["a write is torn at a byte boundary; bytes beyond the torn point 
                "more chunks / the same chunk again, then closes) - or (b) it stored a prefix of its bytes (torn) and the session performs no further "
                "point write: only close() / __exit__ (which re-emit the EVLRs and rewrite the header) or nothing at all (a crash image). A torn write "
                "that stored bytes FOLLOWED BY MORE POINT WRITES of the same session is outside the property as stated (an interrupted session is a "
-               "prefix of the write trace; laspy does not seek back over the bytes a failed write left) and is not judged"]
+               "prefix of the write trace; laspy does not seek back over the bytes a failed write left) and is not judged",
+               "round 6: rich sessions (chunks selected in every way, the session's own header edited between chunks, every way of ending) are judged on the images "
+               "after every low-level operation, torn inside every write (at every byte of the writes that touch header size / offset / counts) and on the file "
+               "afterwards: an exception or a prefix of the chunks the session ACCEPTED (a call issued after close() that returns normally counts as accepted); "
+               "the model side is the guarded in-place rewrite (Model/LasEnd.v guarded_rewrite, C19_own_header_*), compared with the first close of every session"]
 
 READ_LIMIT = 4.0          # seconds granted to one laspy.read of an image of a few KB (a normal read takes < 1 ms)
 
@@ -934,6 +943,47 @@ def history_images(ctx, c):
 
 _OVER = None
 _HIST = None
+_RICH = None
+
+
+def rich_cases(ctx):
+    """round 6: rich writer / appender sessions (no rescaled chunks: what is stored is known byte for byte) with their images"""
+    global _RICH
+    if _RICH is None:
+        _RICH = []
+        for i in range(ctx.n(110, 500)):
+            kind = ("writer", "appender")[i % 2]
+            try:
+                s_ = lasio.rs_session(ctx.rng, kind, ctx.thorough(), rescale=False, version="1.4" if i % 6 == 1 else None)
+                s_["images"] = rich_images(ctx, s_)
+                _RICH.append(s_)
+            except Exception as ex:
+                import traceback
+                _RICH.append({"error": f"{type(ex).__name__}: {ex} | " + traceback.format_exc()[-600:], "desc": {"generator": f"rich {kind} session"}})
+    return _RICH
+
+
+def rich_images(ctx, s_):
+    """images of a rich session: after every operation; torn at 1 / half / all but one byte of every write, at EVERY byte of the writes that
+    touch the header size, the offset to the points, the number of VLRs or the point counts (bytes 94..104, 107..111, 247..255)"""
+    ops, base = s_["ops"], s_["base"]
+    spans = [(94, 104), (107, 111), (247, 255)]
+    out = []
+    for k in range(len(ops) + 1):
+        out.append((f"after {k} operations", lasio.apply_ops(base, ops, k, 0)))
+        if k == len(ops) or ops[k][0] != "W":
+            continue
+        n = len(ops[k][2])
+        pos = ops[k][1]
+        if any(pos < b and pos + n > a for a, b in spans) or ctx.thorough():
+            js = range(1, n)
+        elif n > 3:
+            js = sorted(set([1, n // 2, n - 1]))
+        else:
+            js = []
+        for j in js:
+            out.append((f"operation {k} (a write of {n} bytes at {pos}) torn at {j}", lasio.apply_ops(base, ops, k, j)))
+    return out
 
 
 def overwrites(ctx):
@@ -1021,7 +1071,10 @@ def correspond(ctx):
                          "(longer / shorter / same size, same or other version; LasData.write(path), laspy.open(path, mode=w), headers that cannot be written "
                          "completely) with the open mode, the contents after the open and every write / truncate recorded at the OS boundary, images at every "
                          "operation and every byte of the first header; two-level histories (an append session on the image an interrupted appender / a writer "
-                         "with a half-refused chunk left, interrupted in turn at every operation and every byte of the point count). non-trivial = image length "
+                         "with a half-refused chunk left, interrupted in turn at every operation and every byte of the point count). Round 6: rich writer / appender sessions "
+                         "(chunks selected in every way, the source's format object changed in place, other files read / written meanwhile, the session's OWN header edited "
+                         "between chunks - VLR of k records appended, VLR removed / grown, extra bytes, extra dimension -, close twice / close inside with / chunks after "
+                         "close, closefd False / True): images after every operation, torn inside every write, the file afterwards. non-trivial = image length "
                          "> 227; distinct by image bytes (each distinct image is evaluated once)")
     dis = []
     cmds, meta, seen = [], [], set()
@@ -1057,12 +1110,32 @@ def correspond(ctx):
         imgs = history_images(ctx, c)
         for label, img in imgs[::max(1, len(imgs) // 6)]:
             extra.append(({"kind": "history", "desc": c["desc"]}, label, img))
+    for c in rich_cases(ctx):
+        if "error" in c:
+            continue
+        # (the model does not parse the extra-bytes record: an image torn INSIDE that record makes laspy raise - which the property allows - where
+        # the model reads on; sessions with extra dimensions are compared on the images between operations only)
+        imgs = [im_ for im_ in c["images"] if not c["desc"].get("extra_dims") or im_[0].startswith("after")]
+        for label, img in imgs[::max(1, len(imgs) // 10)] + [("the file afterwards", c["final"])]:
+            extra.append(({"kind": "rich-" + c["kind"], "desc": c["desc"]}, label, img))
     for s_, label, img in extra:
         if img not in seen and len(img) <= 20000:
             seen.add(img)
             cmds.append("read_file " + common.hexb(img))
             meta.append((s_, label, img))
     dis += dest_image_correspondence(ctx)
+    # round 6: the in-place header rewrite of the first close of every rich session (the session's own header edited or not) against
+    # guarded_rewrite of Model/LasEnd.v (theorems C19_own_header_...): refused leaving the destination alone, or every byte from the first point on kept
+    ok_, _log = common.build_driver("c06")
+    if ok_:
+        rg = [(c, lasio.rs_grw_cmd(c)) for c in rich_cases(ctx)]
+        rg = [(c, m) for c, m in rg if m]
+        for (c, _), mo in zip(rg, common.run_model([m for _, m in rg], name="c06")):
+            ctx.traces += 1
+            ctx.count(f"grw:{c['kind']}:{'edited' if c['edited'] else 'plain'}:{mo.split(' ')[0]}")
+            why = lasio.rs_grw_problem(c, mo)
+            if why:
+                dis.append({"kind": f"in-place header rewrite at close ({c['kind']})", "input": c["desc"], "model": mo[:60], "impl": why})
     outs = common.run_model(cmds)
     for (s, label, img), mo in zip(meta, outs):
         im = read_image(img)
@@ -1237,6 +1310,46 @@ def search(ctx, seeds):
                         add("append session on the image an interrupted session left: an image yields points that were not written", dict(d, image=label, image_hex=img.hex()[:6000]), why)
                         break
     _guarded(add, 'two-level histories', sec_two_level_histories)
+    def sec_rich_sessions():
+        for c in rich_cases(ctx):
+            if "error" in c:
+                add("rich session could not be run", c["desc"], c["error"])
+                continue
+            d = c["desc"]
+            tag = lasio.rs_tag(c)
+            ctx.count("rich:" + tag.split(":")[0])
+            for k_, why in lasio.rs_outcome_problems(c):
+                add(tag + k_, d, why)
+            if any(a is None for a in c["accepted"]):
+                continue       # a chunk of another format was accepted (reported above): what the file should hold is not defined
+            intended, ps = c["accepted_bytes"], c["ps"]
+            closed_ok = bool(c["closes"]) and c["closes"][0] == "ok"
+            fin = read_image(c["final"])
+            ctx.case(("rich", c["final"]), nontrivial=len(c["final"]) > 227, sample={"session": d, "impl": fin[0]})
+            if fin[0] == "hang":
+                add(tag + "reader does not terminate", dict(d, image="the file afterwards", image_hex=c["final"].hex()[:6000]), "laspy.read still running")
+            elif fin[0] == "ok":
+                why = judge(fin[1], fin[2], intended)
+                if why is None and closed_ok and fin[1] != intended:
+                    why = f"the session was closed normally and accepted {len(intended) // max(ps, 1)} points, the file gives back {len(fin[1]) // max(fin[2], 1)}"
+                if why:
+                    add(tag + "the file afterwards yields points that were not written" if "prefix" in why or "whole number" in why else tag + "the complete file does not hold the accepted points",
+                        dict(d, image="the file afterwards", image_hex=c["final"].hex()[:6000]), why)
+                    continue
+            elif fin[0] == "err" and closed_ok and not c["edited"]:
+                add(tag + "the complete file cannot be read", dict(d, image_hex=c["final"].hex()[:6000]), fin[1])
+            for label, img in c["images"]:
+                im = read_image(img)
+                ctx.case(("rich", img), nontrivial=len(img) > 227)
+                if im[0] == "hang":
+                    add(tag + "reader does not terminate", dict(d, image=label, image_hex=img.hex()[:6000]), "laspy.read still running")
+                    break
+                if im[0] == "ok":
+                    why = judge(im[1], im[2], intended)
+                    if why:
+                        add(tag + "an image yields points that were not written", dict(d, image=label, image_hex=img.hex()[:6000]), why)
+                        break
+    _guarded(add, 'selections / other files / own header edited / endings', sec_rich_sessions)
     def sec_fault_sequences():
         for plan, policy, fa, run in faults(ctx):
             d = describe_fault(plan, policy, fa, run)
@@ -1263,7 +1376,7 @@ def search(ctx, seeds):
                            f"caller goes on after a write in {run['where']} failed with nothing stored"))
                     add(f"fault sequence ({plan['kind']}, {tag}): points that were not written", dict(d, image_hex=img.hex()[:4000]), why)
     _guarded(add, 'fault sequences', sec_fault_sequences)
-    return failing[:8]
+    return failing[:10]
 
 
 def replay(ctx, data_):
